@@ -102,16 +102,19 @@ def execute(prop, desc):
 
 def exec_generic(prop, desc):
     hist = machine.History(desc)
-    hist.init_sources()
-    tapes = desc.get("tapes") or {}
-    viol = []
-    for idx, op in enumerate(desc["ops"]):
-        rec = machine.apply_op(hist, op, idx, tape=tapes.get(str(idx)))
-        if rec is not None:
-            viol.extend(ORACLES[prop](rec, hist.world, hist))
-            if viol:
-                break
-    return result(desc, hist, viol)
+    try:
+        hist.init_sources()
+        tapes = desc.get("tapes") or {}
+        viol = []
+        for idx, op in enumerate(desc["ops"]):
+            rec = machine.apply_op(hist, op, idx, tape=tapes.get(str(idx)))
+            if rec is not None:
+                viol.extend(ORACLES[prop](rec, hist.world, hist))
+                if viol:
+                    break
+        return result(desc, hist, viol)
+    finally:
+        hist.cleanup()   # (file-backed worlds keep their files in a scratch directory)
 
 
 # ---- C03 -------------------------------------------------------------------
@@ -221,6 +224,17 @@ def gen_c05(seed, tier):
         stress_stale_check(desc, rng)
     else:
         desc, rng = gen_history(seed, tier)
+        if seed % 6 == 5:
+            # the non-source stores are real files of the bundled stores (pickle files, touch files, pathlib paths)
+            from checks.cuts import file_backed
+
+            derived = ref.derived_stores(desc["world"])
+            names = [n["store"] for n in desc["world"]["nodes"] if n.get("store") and n["kind"] == "call"
+                     and n["store"] not in derived and not desc["world"]["stores"][n["store"]].get("feeds")]
+            for nm in names:
+                desc["world"]["stores"][nm]["flavour"] = "plain"
+            if names:
+                file_backed(desc, names, rng)
     # the run under test and its immediate repetition are fault-free
     desc["ops"].append(dict(op="run", cfg=dict(desc["ops"][-1]["cfg"], output=False), repeat=True))
     return desc
